@@ -5,7 +5,7 @@
    configurations (KF, UKF, bootstrap, Gaussian-particle), for arbitrary step
    bodies pstep / cstep and arbitrary beliefs. *)
 Require Import List Bool.
-Require Import BFL.C13_Model BFL.C13_Proofs.
+Require Import BFL.Ops BFL.C02_Model BFL.C13_Model BFL.C13_Proofs BFL.C13_Link.
 Import ListNotations.
 Local Open Scope bool_scope.
 
@@ -28,6 +28,18 @@ Proof. exact (run_known_all_true cs f). Qed.
 Theorem C13_exogenous_with_model_true (b : bool) (f : flags) (e : bool) :
   f_exo f = Some e -> fst (filter_skip NExogenous b f) = Ok true.
 Proof. exact (exogenous_with_model NExogenous b f e eq_refl). Qed.
+
+(* at any point of any command word, when the model was attached with StateModel::add_exogenous_model *)
+Theorem C13_exogenous_true_after_any_word (b : bool) (cs : list cmd) :
+  fst (filter_skip NExogenous b (snd (run cs (init_of (ViaStateModel true))))) = Ok true.
+Proof. exact (exogenous_supplied_via_state_model b cs). Qed.
+
+(* REFUTED at full strength ("on every filter configuration with an exogenous model"): a bootstrap
+   prediction built with DrawParticles(state_model, exogenous_model) answers false and ignores the model *)
+Theorem C13_exogenous_supplied_true_refuted :
+  exists (a : assembly) (b : bool),
+    exo_supplied a = true /\ filter_skip NExogenous b (init_of a) = (Ok false, init_of a).
+Proof. exact exogenous_supplied_true_refuted. Qed.
 
 (* ... and false, changing nothing, when it does not *)
 Theorem C13_exogenous_without_model_false_unchanged (b : bool) (f : flags) :
@@ -134,6 +146,13 @@ Theorem C13_reachable_predictions (have : bool) (cs : list cmd) (k : kind) (prev
 Proof. exact (reachable_predict B pstep have cs k prev old). Qed.
 End Steps.
 
+(* the propagate modes of this model are the branches of C02's model of
+   LinearStateModel::propagate (for every arithmetic instance): MFull is F x + u, MStateOnly is F x, ... *)
+Theorem C13_modes_are_linear_propagate (O : MatOps) (n k : nat) (F : M O n n) (exo : option (M O n k -> M O n k))
+  (p i ss se c : bool) (cur old : M O n k) :
+  lin_propagate F exo ss se cur old = interp_mode O F exo (prop_mode_of (flags_of exo p i ss se c)) cur old.
+Proof. exact (lin_propagate_is_mode O F exo p i ss se c cur old). Qed.
+
 (* non-vacuity: concrete words, by computation on the very functions that are extracted *)
 Example C13_word_without_exo :
   run [(NPrediction, true); (NExogenous, true); (NOther, true); (NState, false); (NAll, false)] (init false)
@@ -158,6 +177,8 @@ Print Assumptions C13_known_names_true_nothrow.
 Print Assumptions C13_never_throws.
 Print Assumptions C13_known_word_all_true.
 Print Assumptions C13_exogenous_with_model_true.
+Print Assumptions C13_exogenous_true_after_any_word.
+Print Assumptions C13_exogenous_supplied_true_refuted.
 Print Assumptions C13_exogenous_without_model_false_unchanged.
 Print Assumptions C13_unknown_false_unchanged.
 Print Assumptions C13_flags_match_commands.
@@ -174,3 +195,4 @@ Print Assumptions C13_all_off_restores_fresh_state.
 Print Assumptions C13_both_off_restores_fresh_state.
 Print Assumptions C13_reversible_all_off.
 Print Assumptions C13_reachable_predictions.
+Print Assumptions C13_modes_are_linear_propagate.
